@@ -288,7 +288,7 @@ def crowd_job(job):
     rng = common.rng('crowd', pname, seed)
     mode, perpack = PACKERS[pname]
     spec = [('W', lambda f: writer(f, ['k7', 'k1'])), ('W2', lambda f: writer(f, ['k7', 'k6', 'k5'])),
-            ('R', X_KINDS['r-bulk']), ('R2', X_KINDS['r-has-pinned']), ('S', X_KINDS['r-seek']),
+            ('R', X_KINDS['r-bulk']), ('R2', X_KINDS['r-single-pinned']), ('S', X_KINDS['r-seek']),
             ('P', lambda f: packer(f, mode, perpack))]
     names = [n for n, _ in spec]
     unique = {}
@@ -299,6 +299,10 @@ def crowd_job(job):
         build_pre(os.path.join(base, 'c'))
         for index in range(1, count + 1):
             segments = [(rng.choice(names), rng.randint(1, 10)) for _ in range(rng.randint(4, 24))]
+            if index <= min(36, count // 2):
+                # a reader that pinned its snapshot before the packing reads while the seeking reader is somewhere inside
+                # its re-loosening of the same object
+                segments = [('R2', 4), ('P', None), ('S', index), ('R2', None), ('S', None)]
             logical, _trace, _steps = execute(base, work, spec, segments, index)
             runs += 1
             norm = [_norm(line) for line in logical]
@@ -435,7 +439,7 @@ def replay(data) -> int:
         spec = [('X', X_KINDS[rep['x']]), ('P', lambda f: packer(f, mode, perpack))]
     elif rep['x'] == 'crowd':
         spec = [('W', lambda f: writer(f, ['k7', 'k1'])), ('W2', lambda f: writer(f, ['k7', 'k6', 'k5'])),
-                ('R', X_KINDS['r-bulk']), ('R2', X_KINDS['r-has-pinned']), ('S', X_KINDS['r-seek']),
+                ('R', X_KINDS['r-bulk']), ('R2', X_KINDS['r-single-pinned']), ('S', X_KINDS['r-seek']),
                 ('P', lambda f: packer(f, mode, perpack))]
     else:
         wname, rname = rep['x'].split('+')
